@@ -1,7 +1,7 @@
 #!/usr/bin/env bash
 # run_mutants.sh [ids...] : applies each seeded change to /repo, runs the quick check of the property it breaks
 # (plus any extra properties given in meta.json "also_check"), reverts. Prints a table.
-cd /verif
+mkdir -p /tmp/scratch; cd /verif
 ids="$@"; [ -z "$ids" ] && ids=$(ls seeded)
 for id in $ids; do
   d=seeded/$id
